@@ -116,6 +116,13 @@ fn gen(seed: u64) -> GatherPlan {
     p.orders.push(p.orders[0].clone());
     p.hash_seeds.truncate(2);
     p.concurrent_gather = false;
+    // every f64 class in float-valued scalars: zero, negative zero, NaN, infinities, subnormal
+    for m in p.metrics.iter_mut() {
+        if matches!(m.kind, crate::scen::gather::MK::Gauge | crate::scen::gather::MK::Pulling | crate::scen::gather::MK::Counter) && r.chance(45) {
+            let v = *r.pick(&[0.0, -0.0, f64::NAN, f64::INFINITY, f64::NEG_INFINITY, 5e-324, 1.5, -2.25, 1e21, 0.1]);
+            m.special = Some(crate::compat::fbits::enc(v));
+        }
+    }
     p
 }
 
